@@ -50,6 +50,9 @@ def witness_sources():
         'at-array-operand-unchecked': main('    let v6: int = (at [1, 2, 3] 0)\n    (println (+ v6 (at 7 0)))'),
         'array-length-arg-unchecked': main('    let v6: int = (array_length 7)\n    (println v6)'),
         'array-element-type-unchecked': main('    let v5: array<int> = [true]\n    (println (+ 1 (at v5 0)))'),
+        # strings as computed values: the operands of str_length / str_concat / str_equals / str_contains / char_at / str_substring / int_to_string
+        'string-builtin-arg-unchecked': main('    let v5: int = (str_length 7)\n    (println (int_to_string "x"))\n    (println v5)'),
+        'string-plus-unknown-operand': main('    let v5: string = (+ (+ "a" true) "b")\n    (println v5)'),
         'anon-struct-literal-arg': main('    let v: int = (f1 { x: 1, y: 2 })\n    (println v)', 'struct Point {\n    x: int,\n    y: int\n}\n' + F1),
         # reviewer's program: a string literal for an int parameter inside println -- the same diagnostic site as call-arg-type-unchecked,
         # here the VM then stops with a run-time type error and cc refuses the C text
@@ -94,7 +97,7 @@ def brief(obs):
 
 def run(ck):
     b = ck.build('plain')
-    ck.gen(['gen_isa', 'gen_driverphases', 'gen_diagsites'])
+    ck.gen(['gen_isa', 'gen_intfmt', 'gen_driverphases', 'gen_diagsites'])
     ck.prove()
     nv = ck.nvref('c04')
     probe = ck.probe('tc_probe.c')
